@@ -20,6 +20,7 @@ type ConcCfg struct {
 	Snapshotters int    `json:"snapshotters"`
 	Resetters    int    `json:"resetters"`
 	APIResetters int    `json:"api_resetters"`
+	Stampede     int    `json:"stampede"` // fresh names that ALL collectors record for at the same moment (first use races)
 	Rounds       int    `json:"rounds,omitempty"`
 }
 
@@ -32,6 +33,9 @@ func genConc(r *common.Rng, idx uint64, o *common.Options) ConcCfg {
 		Snapshotters: r.Range(0, 2),
 		Resetters:    r.Range(0, 3),
 		APIResetters: r.Range(0, 1),
+	}
+	if r.Chance(1, 2) {
+		c.Stampede = r.Range(1, 6)
 	}
 	if r.Chance(1, 8) { // no resetting party at all: successive Snapshots must be monotone
 		c.Resetters, c.APIResetters, c.Snapshotters = 0, 0, 2
@@ -67,10 +71,35 @@ func concUsers(c ConcCfg) (early, late []string) {
 	return
 }
 
+func stampedeUsers(c ConcCfg) (s []string) {
+	for i := 0; i < c.Stampede; i++ {
+		s = append(s, fmt.Sprintf("rush%d", i))
+	}
+	return
+}
+
+// barrier: all parties leave together, as close to simultaneously as the scheduler allows
+type barrier struct {
+	n       int32
+	arrived atomic.Int32
+	gate    chan struct{}
+}
+
+func newBarrier(n int) *barrier { return &barrier{n: int32(n), gate: make(chan struct{})} }
+
+func (b *barrier) wait() {
+	if b.arrived.Add(1) == b.n {
+		close(b.gate)
+		return
+	}
+	<-b.gate
+}
+
 func runConc(c ConcCfg) (out concOutcome, err error) {
 	early, late := concUsers(c)
 	all := append(append([]string{}, early...), late...)
-	srv, err := newImpl(all)
+	rush := stampedeUsers(c)
+	srv, err := newImpl(append(append([]string{}, all...), rush...))
 	if err != nil {
 		return out, err
 	}
@@ -80,6 +109,9 @@ func runConc(c ConcCfg) (out concOutcome, err error) {
 	r := common.NewRng(c.Seed)
 	for g := range out.calls {
 		rg := r.Fork(uint64(g))
+		for _, u := range rush { // program prefix: one session per stampede name, behind a barrier each
+			out.calls[g] = append(out.calls[g], recorded{u, "tcp", uint64(rg.Intn(1 << 16)), uint64(rg.Intn(1 << 16))})
+		}
 		for i := 0; i < c.PerCollector; i++ {
 			pool := early
 			if i >= c.PerCollector/2 {
@@ -101,12 +133,19 @@ func runConc(c ConcCfg) (out concOutcome, err error) {
 		mu      sync.Mutex
 		apiFail atomic.Value
 	)
+	barriers := make([]*barrier, len(rush))
+	for i := range barriers {
+		barriers[i] = newBarrier(c.Collectors)
+	}
 	for g := range out.calls {
 		wgCol.Add(1)
 		go func(prog []recorded) {
 			defer wgCol.Done()
 			<-start
 			for i, x := range prog {
+				if i < len(barriers) {
+					barriers[i].wait()
+				}
 				switch x.op {
 				case "tcp":
 					srv.col.CollectTCPSession(x.user, x.a, x.b)
@@ -182,7 +221,7 @@ func runConc(c ConcCfg) (out concOutcome, err error) {
 	}
 	out.apiStats = v
 	out.apiUsers = map[string]fig{}
-	for _, u := range all {
+	for _, u := range append(append([]string{}, all...), rush...) {
 		status, body := srv.get("/servers/" + serverName + "/users/" + u)
 		_, name, f, e := renderUser(status, body)
 		if e != nil || status != 200 || name != u {
@@ -209,8 +248,8 @@ func checkConc(c ConcCfg, o concOutcome) (string, string) {
 	}
 	sorted := func(v snapView, what string) (string, string) {
 		for i := 1; i < len(v.Users); i++ {
-			if v.Users[i-1].Name >= v.Users[i].Name {
-				return "conc:snapshot-users-list", fmt.Sprintf("%s lists users out of order or twice: %s", what, v)
+			if v.Users[i-1].Name == v.Users[i].Name {
+				return "conc:snapshot-users-list", fmt.Sprintf("%s lists user %q twice: %s", what, v.Users[i].Name, v)
 			}
 		}
 		var sum fig
@@ -368,6 +407,9 @@ func evalConc(cfgs []ConcCfg, o *common.Options, rep *common.Report) error {
 			rep.Count(fmt.Sprintf("conc:resetting-parties=%d", cfg.Resetters+cfg.APIResetters))
 			if cfg.LateUsers > 0 {
 				rep.Count("conc:with-users-first-seen-mid-run")
+			}
+			if cfg.Stampede > 0 {
+				rep.Count("conc:with-simultaneous-first-use")
 			}
 			if pan != nil {
 				rep.Fail(common.OracleFailure{Engine: "conc", Key: "conc:panic", Case: cs, Detail: fmt.Sprint(pan)})
